@@ -470,17 +470,34 @@ class SimSimpleQueue:
         pass
 
 
+class _ConnFrame:
+    __slots__ = ("data", "total", "written", "owner", "garbled")
+
+    def __init__(self, data, owner):
+        self.data = data
+        self.total = len(data) + 4
+        self.written = 0
+        self.owner = owner
+        self.garbled = False
+
+
 class SimConnection:
+    """One end of a multiprocessing.Pipe.  send() writes header+body with os.write: a write of at most
+    PIPE_BUF bytes is atomic, a larger one can be cut where the pipe is full, and a body above 16 KiB is
+    a second write; nothing serialises concurrent senders, so two large messages of different processes
+    can interleave and the receiver then reads garbage."""
+
     def __init__(self, world, cid, readable, writable):
         self.world = world
         self.cid = cid
         self.readable = readable
         self.writable = writable
-        self.inbox = deque()  # messages waiting to be received at THIS end
+        self.inbox = deque()  # frames whose bytes are (partly) in the pipe towards THIS end
         self.used = 0
         self.peer = None
         self.holders = set()  # processes that have this end open
         self.closed_by = set()
+        self.reader_waiting = False
 
     def __deepcopy__(self, memo):
         return self
@@ -492,18 +509,51 @@ class SimConnection:
         return me
 
     def send(self, obj):
-        self._check()
+        me = self._check()
         if not self.writable:
             raise OSError("connection is read-only")
         w = self.world
         data = pickle.dumps(obj, protocol=pickle.HIGHEST_PROTOCOL)
-        n = len(data) + 4
+        n = len(data)
         peer = self.peer
-        w.seam(Op("conn-send", "c%d %dB" % (self.cid, n), can_run=lambda: peer.used == 0 or peer.used + n <= w.pipe_capacity or not peer.holders))
-        if not peer.holders:
-            raise BrokenPipeError("[Errno 32] Broken pipe")
-        peer.inbox.append(data)
-        peer.used += n
+        fr = _ConnFrame(data, me)
+        chunks = [4, n] if n > w.pipe_split else [n + 4]
+        started = False
+        for chunk in chunks:
+            left = chunk
+            atomic = chunk <= w.pipe_buf
+            while left:
+                need = left if atomic else 1
+
+                def room():
+                    if not peer.holders:
+                        return True
+                    if peer.reader_waiting and (not peer.inbox or peer.inbox[0] is fr):
+                        return True  # the reader is draining this very message
+                    return w.pipe_capacity - peer.used >= need
+
+                w.seam(Op("conn-send", "c%d %d/%dB" % (self.cid, fr.written, fr.total), can_run=room))
+                if not peer.holders:
+                    raise BrokenPipeError("[Errno 32] Broken pipe")
+                free = w.pipe_capacity - peer.used
+                if peer.reader_waiting and (not peer.inbox or peer.inbox[0] is fr):
+                    k = left
+                else:
+                    k = left if atomic else max(1, min(free, left))
+                if not started:
+                    peer.inbox.append(fr)
+                    started = True
+                for other in peer.inbox:
+                    if other is not fr and other.written < other.total:
+                        # bytes of two messages are mixed in the stream (or follow a frame cut off by a death)
+                        other.garbled = True
+                        fr.garbled = True
+                        w.note_probe("pipe_messages_interleaved")
+                fr.written += k
+                peer.used += k
+                left -= k
+                if left:
+                    w.note_probe("pipe_partial_write")
 
     def send_bytes(self, buf, offset=0, size=None):
         self.send(bytes(buf))
@@ -511,23 +561,38 @@ class SimConnection:
     def _eof(self):
         return not self.inbox and not self.peer.holders
 
+    def _readable_now(self):
+        if self.inbox:
+            h = self.inbox[0]
+            # complete, garbage, or cut off with nobody left who could complete it (EOF inside a message)
+            return h.written == h.total or h.garbled or not self.peer.holders
+        return self._eof()
+
     def recv(self):
         self._check()
         if not self.readable:
             raise OSError("connection is write-only")
-        self.world.seam(Op("conn-recv", "c%d" % self.cid, can_run=lambda: bool(self.inbox) or self._eof()))
+        self.reader_waiting = True
+        try:
+            self.world.seam(Op("conn-recv", "c%d" % self.cid, can_run=self._readable_now))
+        finally:
+            self.reader_waiting = False
         if not self.inbox:
             raise EOFError
-        data = self.inbox.popleft()
-        self.used -= len(data) + 4
-        return pickle.loads(data)
+        fr = self.inbox.popleft()
+        self.used -= fr.written
+        if fr.garbled:
+            raise pickle.UnpicklingError("invalid load key (bytes of two messages interleaved in the pipe)")
+        if fr.written < fr.total:
+            raise OSError("got end of file during message")
+        return pickle.loads(fr.data)
 
     def recv_bytes(self, maxlength=None):
         return self.recv()
 
     def poll(self, timeout=0.0):
         self._check()
-        ready = lambda: bool(self.inbox) or self._eof()
+        ready = lambda: bool(self.inbox and self.inbox[0].written > 0) or self._eof()
         if timeout is None:
             self.world.seam(Op("conn-poll", "c%d" % self.cid, can_run=ready))
             return True
